@@ -30,6 +30,9 @@ pub const CAP: usize = 6;
 pub static mut OBS_STRONG: [*const core::cell::Cell<usize>; 3] = [core::ptr::null(); 3];
 pub static mut OBS_WEAK: [*const core::cell::Cell<usize>; 3] = [core::ptr::null(); 3];
 pub static mut OBS_EXPECT_WEAK: [usize; 3] = [0; 3];
+/// when set for member i, the first call-out also performs the smallest action a destructor may take on a
+/// dying peer that changes its fate: `Rc::downgrade` of a handle to it (weak+1), the new Weak escaping
+pub static mut OBS_INC_WEAK_ONCE: [bool; 3] = [false; 3];
 /// Number of tagged (non-zero tag) tables destroyed so far.
 pub static mut TAGGED_DROPS: usize = 0;
 /// tables constructed minus tables destroyed (a forgotten table keeps this positive)
@@ -100,6 +103,11 @@ impl<K, V> Drop for HashMap<K, V> {
                     if !OBS_STRONG[i].is_null() {
                         kani::assert((*OBS_STRONG[i]).get() == usize::MAX, "U6.callout.every_registered_member_already_gone");
                         kani::assert((*OBS_WEAK[i]).get() == OBS_EXPECT_WEAK[i], "U6.callout.no_registered_member_released_yet");
+                        if OBS_INC_WEAK_ONCE[i] {
+                            OBS_INC_WEAK_ONCE[i] = false;
+                            (*OBS_WEAK[i]).set((*OBS_WEAK[i]).get() + 1);
+                            OBS_EXPECT_WEAK[i] += 1;
+                        }
                     }
                     i += 1;
                 }
